@@ -61,7 +61,7 @@ fn @name@() {
     let s = any_inv_seg();
     let b = any_bin();
     let alphas: RefCell<HashMap<char, Alpha>> = RefCell::new(HashMap::new());
-    let mut m = Modifiers::new();
+    let mut m = mods_new();
     m.feats[@fi@] = Some(ModKind::Binary(b));
     let mut t = s;
     let r = t.apply_seg_mods(&alphas, m.nodes, m.feats, P, false);
@@ -80,7 +80,7 @@ fn @name@() {
     let s = any_inv_seg();
     let b = any_bin();
     let alphas: RefCell<HashMap<char, Alpha>> = RefCell::new(HashMap::new());
-    let mut m = Modifiers::new();
+    let mut m = mods_new();
     m.nodes[@ni@] = Some(ModKind::Binary(b));
     let mut t = s;
     let r = t.apply_seg_mods(&alphas, m.nodes, m.feats, P, false);
@@ -101,7 +101,7 @@ fn @name@() {
     let s = any_inv_seg();
     let bn = any_bin(); let bf = any_bin();
     let alphas: RefCell<HashMap<char, Alpha>> = RefCell::new(HashMap::new());
-    let mut m = Modifiers::new();
+    let mut m = mods_new();
     m.nodes[@ni@] = Some(ModKind::Binary(bn));
     m.feats[@fi@] = Some(ModKind::Binary(bf));
     let mut t = s;
@@ -178,7 +178,7 @@ fn c08_place_lemma() {
 fn @name@() {
     let s = any_inv_seg();
     let w = empty_word();
-    let mut m = Modifiers::new();
+    let mut m = mods_new();
     m.feats[@fi@] = Some(ModKind::Binary(any_bin()));
     let mut t = s;
     let r = w.alias_apply_mods(&mut t, &m, AliasPosition { kind: crate::alias::AliasKind::Deromaniser, line: 0, start: 0, end: 1 });
